@@ -540,6 +540,109 @@ Proof.
 Qed.
 
 
+(* ---------- system 1 on the resolver map: the store invariant holds in every interleaving ---------- *)
+Lemma ixinv_untag ix t : IxInv ix -> IxInv (runset (RTag t) ix).
+Proof.
+  intro I. split.
+  - apply nodup_runset, I.
+  - intros k d H. rewrite lookup_runset in H. simpl in H. now apply (ix_j2 _ I).
+  - intros t' d H. rewrite lookup_runset in H. destruct (ref_eqb (RTag t') (RTag t)); [discriminate|].
+    rewrite lookup_runset. simpl. now apply (ix_j1 _ I t').
+Qed.
+
+Lemma reg_keeps_digests r ix k : lookup (RDig k) ix <> None -> lookup (RDig k) (reg_fun r ix) <> None.
+Proof.
+  intro H. destruct r as [d|t d|t]; cbn [reg_fun].
+  - rewrite lookup_rset. destruct (ref_eqb (RDig k) (RDig (d_node d))); congruence.
+  - rewrite lookup_rset. cbn [ref_eqb]. exact H.
+  - rewrite lookup_runset. cbn [ref_eqb]. exact H.
+Qed.
+
+(* every tag registration still to come finds the digest entry of its descriptor: it is there
+   already, or the same operation registers it before ([pres]) *)
+Fixpoint safe' (pres : list nat) (ix : rmap) (l : list rreg) : Prop :=
+  match l with
+  | [] => True
+  | RegDig d :: r => safe' (d_node d :: pres) ix r
+  | RegTag t d :: r => (lookup (RDig (d_node d)) ix <> None \/ In (d_node d) pres) /\ safe' pres ix r
+  | RegUntag t :: r => safe' pres ix r
+  end.
+
+Lemma safe_mono l : forall pres pres' ix ix',
+  (forall k, lookup (RDig k) ix <> None \/ In k pres -> lookup (RDig k) ix' <> None \/ In k pres') ->
+  safe' pres ix l -> safe' pres' ix' l.
+Proof.
+  induction l as [|[d|t d|t] l IH]; intros pres pres' ix ix' M H; simpl in *; auto.
+  - apply (IH (d_node d :: pres) (d_node d :: pres') ix ix'); auto.
+    intros k [X|[X|X]]; [destruct (M k (or_introl X)); auto; right; now right|right; now left|].
+    destruct (M k (or_intror X)); auto. right. now right.
+  - destruct H as [H1 H2]. split; [now apply M|]. now apply (IH pres pres' ix ix').
+  - now apply (IH pres pres' ix ix').
+Qed.
+
+Lemma safe_cop o ix : safe' [] ix (cop_regs o).
+Proof. destruct o; simpl; auto. Qed.
+
+Section Typed.
+  Notation St := (sstate rmap (list desc)).
+  Let proj := fun (c : list nat * list nat) (v : rmap) => save_index (fst c) (snd c) v.
+
+  Definition typed_thread (ix : rmap) (t : thread rmap) : Prop :=
+    exists l ops, t_regs rmap t = map reg_fun l /\ safe' [] ix l /\ t_ops rmap t = map cop_thread_op ops.
+  Definition TInv (s : St) : Prop :=
+    IxInv (live _ _ s) /\ forall i, typed_thread (live _ _ s) (ths _ _ s i).
+
+  Lemma tinv_step s i c s' : TInv s -> th_step rmap (list desc) _ proj i c s = Some s' -> TInv s'.
+  Proof.
+    intros [I T] H. unfold th_step in H.
+    destruct (T i) as (l & ops & El & Sl & Eo).
+    assert (Same : forall t', live _ _ s' = live _ _ s -> ths _ _ s' = upd rmap (ths _ _ s) i t' ->
+                   typed_thread (live _ _ s) t' -> TInv s').
+    { intros t' E1 E2 Tt. split; [now rewrite E1|]. intro j. rewrite E1, E2. unfold upd.
+      destruct (Nat.eqb j i); auto. }
+    destruct (t_regs rmap (ths _ _ s i)) as [|f fs] eqn:R.
+    - assert (Tl : l = []) by (destruct l; [reflexivity|discriminate]). subst l.
+      destruct (t_save rmap (ths _ _ s i)) as [|st r] eqn:Sv.
+      + destruct (t_ops rmap (ths _ _ s i)) as [|[rg sv] more] eqn:O; [discriminate|]. injection H as <-.
+        destruct ops as [|o ops]; [discriminate|]. simpl in Eo. injection Eo as E1 E2 E3.
+        eapply Same; [reflexivity|reflexivity|]. exists (cop_regs o), ops. simpl. subst rg.
+        repeat split; auto. apply safe_cop.
+      + destruct st.
+        * destruct (ilock _ _ s); [discriminate|]. injection H as <-.
+          eapply Same; [reflexivity|reflexivity|]. exists [], ops. simpl. auto.
+        * injection H as <-. eapply Same; [reflexivity|reflexivity|]. exists [], ops. simpl. auto.
+        * injection H as <-. eapply Same; [reflexivity|reflexivity|]. exists [], ops. simpl. auto.
+        * injection H as <-. eapply Same; [reflexivity|reflexivity|]. exists [], ops. simpl. auto.
+    - injection H as <-. destruct l as [|r l]; [discriminate|]. simpl in El. injection El as Ef Efs. subst f fs.
+      simpl.
+      assert (Mono : forall k, lookup (RDig k) (live _ _ s) <> None -> lookup (RDig k) (reg_fun r (live _ _ s)) <> None)
+        by (intros k; apply reg_keeps_digests).
+      split; simpl.
+      + destruct r as [d|t d|t]; simpl in *.
+        * now apply ixinv_set_dig.
+        * destruct Sl as [[X|[]] _]. now apply ixinv_set_tag.
+        * now apply ixinv_untag.
+      + intro j. unfold upd. destruct (Nat.eqb j i).
+        * exists l, ops. simpl. repeat split; auto.
+          destruct r as [d|t d|t]; simpl in Sl |- *.
+          -- apply (safe_mono l [d_node d] [] (live _ _ s)); auto.
+             intros k [X|[X|[]]]; left; [now apply (Mono k)|].
+             subst k. rewrite lookup_rset, ref_eqb_refl. congruence.
+          -- destruct Sl as [_ Sl]. apply (safe_mono l [] [] (live _ _ s)); auto.
+             intros k [X|[]]. left. now apply (Mono k).
+          -- apply (safe_mono l [] [] (live _ _ s)); auto.
+             intros k [X|[]]. left. now apply (Mono k).
+        * destruct (T j) as (lj & opsj & A & B & Cj). exists lj, opsj. repeat split; auto.
+          apply (safe_mono lj [] [] (live _ _ s)); auto. intros k [X|[]]. left. now apply (Mono k).
+  Qed.
+
+  Lemma tinv_run sched : forall s, TInv s -> TInv (run_sched rmap (list desc) _ proj sched s).
+  Proof.
+    induction sched as [|[i c] r IH]; intros s I; simpl; auto.
+    apply IH. destruct (th_step rmap (list desc) _ proj i c s) eqn:E; auto. eapply tinv_step; eauto.
+  Qed.
+End Typed.
+
 (* ---------- the two systems with the programs read from the sources, on the store model ---------- *)
 (* index.json = saveIndex of the live resolver map, for some iteration orders, hence (for a
    resolver map satisfying the store invariant) an order-independent projection of it *)
@@ -587,4 +690,27 @@ Proof.
   - split; [exists ([], []); reflexivity|]. split; [reflexivity|].
     intros [|[|[|i]]]; repeat split; repeat constructor.
   - vm_compute. repeat split.
+Qed.
+
+
+(* Unconditional form: threads running any lists of Tag / Tag-by-digest (manifest Push) / Untag /
+   SaveIndex on a store whose resolver map satisfies the store invariant and whose index.json is
+   current: under every schedule the invariant holds at every moment, and at quiescence
+   index.json is the order-independent projection of the live map *)
+Theorem concurrent_store_index_current
+  (s0 : sstate rmap (list desc)) (sched : list (nat * (list nat * list nat))) :
+  let proj := fun (c : list nat * list nat) (v : rmap) => save_index (fst c) (snd c) v in
+  IxInv (live _ _ s0) -> (exists c, disk _ _ s0 = proj c (live _ _ s0)) -> ilock _ _ s0 = None ->
+  (forall i, exists ops, ths _ _ s0 i = mkTh rmap [] [] None (map cop_thread_op ops)) ->
+  let s := run_sched rmap (list desc) (list nat * list nat) proj sched s0 in
+  IxInv (live _ _ s) /\ (quiescent rmap (list desc) s -> DiskOK (disk _ _ s) (live _ _ s)).
+Proof.
+  intros proj I0 D0 L0 T0 s.
+  assert (TI : TInv s0).
+  { split; auto. intro i. destruct (T0 i) as (ops & ->). exists [], ops. simpl. auto. }
+  pose proof (tinv_run sched s0 TI) as [I _]. fold proj in I. fold s in I.
+  split; auto. intro Q.
+  apply (concurrent_saves_index_current s0 sched); auto.
+  split; auto. split; auto. intro i. destruct (T0 i) as (ops & ->). simpl. repeat split; auto.
+  apply Forall_forall. intros o Ho. apply in_map_iff in Ho as (c & <- & _). reflexivity.
 Qed.
